@@ -511,8 +511,110 @@ pub fn run_processes(ctx: &Ctx, acc: &mut Acc) -> Result<(), String> {
     Ok(())
 }
 
+/// The same corpus through momtrop built WITHOUT any cargo feature (the `nolog` binary): results must not depend on the
+/// feature set of the build; in particular the `#[cfg(not(feature = "log"))]` branches (debug printing) must not change them.
+pub fn run_nolog(ctx: &Ctx, acc: &mut Acc) -> Result<(), String> {
+    let root = verif_dir();
+    let bin = format!("{root}/target/release/nolog");
+    if !std::path::Path::new(&bin).exists() {
+        return Err(format!("{bin} not built (./check builds it with `cargo build -p nolog`)"));
+    }
+    let all = fam_for(Tier::Quick, "C17");
+    let want = ctx.tier.pick(160usize, 600usize);
+    let step = (all.len() / want).max(1);
+    let roles = Roles { u: true, xi: true, p: true, ab: true, xi_moderate: true, xi_ladder: false };
+    let settings = [
+        Settings::DEFAULT,
+        Settings::META,
+        Settings { stability: None, debug: true, metadata: false },
+        Settings::FULL,
+        Settings { stability: Some(f64::INFINITY), debug: true, metadata: true },
+    ];
+    let hx = |x: f64| format!("{:016x}", x.to_bits());
+    let mut corpus = vec![];
+    let mut mine: Vec<Vec<Result<Vec<u64>, String>>> = vec![];
+    for spec in all.iter().step_by(step) {
+        let case = match Case::new(spec) {
+            Some(c) => c,
+            None => continue,
+        };
+        let r = match route(&case, &case.base_kin()) {
+            Ok(r) => r,
+            Err(_) => continue,
+        };
+        let order: Vec<usize> = (0..case.g.ne()).rev().collect();
+        let mut pts: Vec<Vec<f64>> = sector_points(&case, &order, 1, &roles).into_iter().map(|p| p.0).collect();
+        pts.truncate(40);
+        let mut res = vec![];
+        for st in &settings {
+            for x in &pts {
+                res.push(outcome_bits(&r.sampler.sample_with(x, &r.ed, st, &NullLogger)));
+            }
+        }
+        mine.push(res);
+        corpus.push(json!({
+            "dim": case.g.dim,
+            "edges": (0..case.g.ne()).map(|e| json!({"v": [r.graph.edges[e].0, r.graph.edges[e].1], "massive": case.g.massive[e], "weight": hx(case.g.weights[e])})).collect::<Vec<_>>(),
+            "externals": case.g.externals,
+            "sig": r.kin.sig,
+            "edge_data": r.ed.iter().map(|(m, s)| json!({"mass": m.map(hx), "shift": s.iter().map(|c| hx(*c)).collect::<Vec<_>>()})).collect::<Vec<_>>(),
+            "settings": settings.iter().map(|s| json!({"stability": s.stability.map(hx), "debug": s.debug, "metadata": s.metadata})).collect::<Vec<_>>(),
+            "points": pts.iter().map(|x| x.iter().map(|c| hx(*c)).collect::<Vec<_>>()).collect::<Vec<_>>(),
+        }));
+    }
+    let cpath = format!("{root}/target/nolog_corpus_{}.json", std::process::id());
+    let opath = format!("{root}/target/nolog_out_{}.json", std::process::id());
+    std::fs::write(&cpath, serde_json::to_string(&corpus).unwrap()).map_err(|e| e.to_string())?;
+    let status = std::process::Command::new(&bin).args([&cpath, &opath]).stdout(std::process::Stdio::null()).stderr(std::process::Stdio::null()).status().map_err(|e| e.to_string())?;
+    if !status.success() {
+        return Err("nolog binary failed".into());
+    }
+    let out: Value = serde_json::from_str(&std::fs::read_to_string(&opath).map_err(|e| e.to_string())?).map_err(|e| e.to_string())?;
+    let _ = std::fs::remove_file(&cpath);
+    let _ = std::fs::remove_file(&opath);
+    let arr = out.as_array().ok_or("nolog output")?;
+    if arr.len() != mine.len() {
+        return Err("nolog output has the wrong length".into());
+    }
+    for (ci, (theirs, ours)) in arr.iter().zip(mine.iter()).enumerate() {
+        acc.inc("nolog_cases");
+        if theirs["build"] != "Ok" {
+            acc.violate(format!("C17/build-feature/build/{ci}"), "results do not depend on the build's cargo features", format!("corpus entry {ci}: the build without features gives {} while the `log` build accepts the graph", theirs["build"]), json!({"engine": "nolog", "entry": corpus[ci]}));
+            continue;
+        }
+        let rs = theirs["results"].as_array().cloned().unwrap_or_default();
+        for (k, (t, o)) in rs.iter().zip(ours.iter()).enumerate() {
+            acc.inc("nolog_results_compared");
+            let same = match (o, t.get("ok"), t.get("err"), t.get("panic")) {
+                (Ok(b), Some(tb), _, _) => {
+                    let tv: Vec<u64> = tb.as_array().unwrap().iter().map(|x| u64::from_str_radix(x.as_str().unwrap(), 16).unwrap()).collect();
+                    let nan_eq = |a: u64, b: u64| a == b || (f64::from_bits(a).is_nan() && f64::from_bits(b).is_nan());
+                    tv.len() == b.len() && tv.iter().zip(b.iter()).all(|(x, y)| nan_eq(*x, *y))
+                }
+                (Err(e), _, Some(te), _) => te.as_str().map(|s| e.contains("Err") && (s.contains("ZeroDet") == e.contains("ZeroDet")) && (s.contains("Unstable") == e.contains("Unstable")) && (s.contains("Gamma") == e.contains("Gamma"))).unwrap_or(false),
+                (Err(e), _, _, Some(_)) => e.contains("Panic"),
+                _ => false,
+            };
+            if !same {
+                acc.violate(
+                    format!("C17/build-feature/{ci}/{k}"),
+                    "results do not depend on the build's cargo features (print_debug_info does not change the numerical result)",
+                    format!("corpus entry {ci}, result {k} (settings {} / point {}): the build without features differs from the `log` build", k / (rs.len() / 5).max(1), k % (rs.len() / 5).max(1)),
+                    json!({"engine": "nolog", "entry": corpus[ci], "result": k}),
+                );
+                break;
+            }
+        }
+    }
+    Ok(())
+}
+
 pub fn run_c17(ctx: &Ctx) -> i32 {
     let mut acc = Acc::new();
+    if let Err(e) = run_nolog(ctx, &mut acc) {
+        eprintln!("[C17] MACHINERY: {e}");
+        return 2;
+    }
     run_histories(ctx, &mut acc);
     run_hash_orders(&mut acc);
     if let Err(e) = run_processes(ctx, &mut acc) {
@@ -545,7 +647,7 @@ pub fn run_c17(ctx: &Ctx) -> i32 {
     extra.insert("source_scan_global_state_candidates(assumption only)".into(), json!(scan));
     let fin = Finish {
         level: "model_checking",
-        rule: format!("(histories) all sequences up to depth {} over a 64-operation alphabet on two samplers (sample x 8 settings x 3 points incl. u = 1-2^-53, sample with different edge data, from_rng with two scripted RngCores incl. exact zeros, clone, get_dimension, JSON and CBOR round trips, in-place rebuild of a different sampler with the same edge count), each re-executed on freshly built samplers and compared bit-for-bit with the same call made first on a fresh sampler, serialisations compared after every step; (schedules) all interleavings of 2-3 real OS threads sharing a sampler with at most p preemptions, scheduling points = every scalar operation, under an own baton scheduler with DFS over schedules, a planted impurity must be caught first; (configurations) all E! hash iteration orders; child processes. states = histories + schedules, transitions = operations + scheduling decisions", ctx.tier.pick(3, 4)),
+        rule: format!("(histories) all sequences up to depth {} over a 64-operation alphabet on two samplers (sample x 8 settings x 3 points incl. u = 1-2^-53, sample with different edge data, from_rng with two scripted RngCores incl. exact zeros, clone, get_dimension, JSON and CBOR round trips, in-place rebuild of a different sampler with the same edge count), each re-executed on freshly built samplers and compared bit-for-bit with the same call made first on a fresh sampler, serialisations compared after every step; (schedules) all interleavings of 2-3 real OS threads sharing a sampler with at most p preemptions, scheduling points = every scalar operation, under an own baton scheduler with DFS over schedules, a planted impurity must be caught first; (configurations) all E! hash iteration orders; child processes; a corpus of samples through a second build of momtrop without any cargo feature. states = histories + schedules, transitions = operations + scheduling decisions", ctx.tier.pick(3, 4)),
         states: acc.get("histories") + acc.get("schedules"),
         transitions: acc.get("operations") + acc.get("schedules"),
         traces: acc.get("histories") + acc.get("schedules"),
